@@ -45,7 +45,7 @@ func (check) Cases(tier string) int { return len(table) + randomCases(tier) }
 func (check) Exhaustive(string) bool { return false }
 
 func (check) Rule() string {
-	return "setting values: a finite boundary table (0, +-1, +-2^k and +-(2^k+-1) for k in {7,8,15,16,31,32,53,63,64}, float neighbours of +-2^31/2^32/2^63/2^64/2^53, MaxFloat32 / the float32 rounding limit / MaxFloat64 / subnormals and their neighbours, +-Inf, NaN, -0, fractional values at every sized maximum, second counts at +-9223372036(.854775807) and at 2^53ns/2^62ns; each as int64, uint64, float64 and in every strconv spelling: decimal, 0x, 0X, 0b, 0o, 0NNN, 1_000, +N, N.0, Ne0, %g/%e/%E/%x/%f; plus booleans, duration strings at the int64 limits and unparsable strings) - one case per table value: the value built 4 ways (NewFrom literal; SetInt/SetUint/SetFloat/SetString/SetBool; NewFrom with ${src} references and VarExp, src literal or Set*) x 15 target kinds x plain/*T/named/*named x struct field, map[string]T value, []T element, plus the getters Bool/Int/Uint/Float/String; then the value as TEXT the library reads again, in 9 forms (\"${src:D}\" and \"${src:?msg}\" with src set, literal or Set*: the library renders the value itself; \"${absent:TEXT}\"; \"${other:+TEXT}\"; \"${hi}${lo}\" and \"TE${lo}\" / \"${hi}XT\" with TEXT cut at a random place; \"${ENVX}\" and \"${ENVX:D}\" answered by a Resolve option with parse.EnvConfig/DefaultConfig/NoopConfig; a -E style flag value f=TEXT), TEXT = the string value itself when it is a word (letters, digits, + - . _ only) or the decimal numeral of an int64/uint64 value, each form x every target type through one random route + the getters; then random cases of 16 values each within +-4 (ulp) of a boundary, every kind and getter through one random (construction, variant, route) and once more through one random applicable text form. Non-trivial = the setting value is not zero/false/blank; distinct = distinct (value class = kind, syntax, sign, bit length/exponent, fractional?; target type; construction/route)."
+	return "setting values: a finite boundary table (0, +-1, +-2^k and +-(2^k+-1) for k in {7,8,15,16,31,32,53,63,64}, float neighbours of +-2^31/2^32/2^63/2^64/2^53, MaxFloat32 / the float32 rounding limit / MaxFloat64 / subnormals and their neighbours, +-Inf, NaN, -0, fractional values at every sized maximum, second counts at +-9223372036(.854775807) and at 2^53ns/2^62ns; each as int64, uint64, float64 and in every strconv spelling: decimal, 0x, 0X, 0b, 0o, 0NNN, 1_000, +N, N.0, Ne0, %g/%e/%E/%x/%f; plus booleans, duration strings at the int64 limits and unparsable strings) - one case per table value: the value built 4 ways (NewFrom literal; SetInt/SetUint/SetFloat/SetString/SetBool; NewFrom with ${src} references and VarExp, src literal or Set*) x 15 target kinds x plain/*T/named/*named x struct field, map[string]T value, []T element, plus the getters Bool/Int/Uint/Float/String; then the value as TEXT the library reads again, in 9 forms (\"${src:D}\" and \"${src:?msg}\" with src set, literal or Set*: the library renders the value itself; \"${absent:TEXT}\"; \"${other:+TEXT}\"; \"${hi}${lo}\" and \"TE${lo}\" / \"${hi}XT\" with TEXT cut at a random place; \"${ENVX}\" and \"${ENVX:D}\" answered by a Resolve option with parse.EnvConfig/DefaultConfig/NoopConfig; a -E style flag value f=TEXT), TEXT = the string value itself when it is a word (letters, digits, + - . _ only) or the decimal numeral of an int64/uint64 value, each form x every target type through one random route + the getters; then random cases of 16 values each within +-4 (ulp) of a boundary, every kind and getter through one random (construction, variant, route) and once more through one of three random applicable text forms. Non-trivial = the setting value is not zero/false/blank; distinct = distinct (value class = kind, syntax, sign, bit length/exponent, fractional?; target type; construction/route)."
 }
 
 func (check) Assumptions() []string {
@@ -735,6 +735,11 @@ func runSampled(res *harness.R, r *rand.Rand, s src, verbose bool) {
 	}
 	if len(forms) == 0 {
 		return
+	}
+	// three forms per value (a configuration is built per form)
+	r.Shuffle(len(forms), func(i, j int) { forms[i], forms[j] = forms[j], forms[i] })
+	if len(forms) > 3 {
+		forms = forms[:3]
 	}
 	for ki := range kinds {
 		ts := targetsOf[ki]
